@@ -301,6 +301,25 @@ def install_hot_instrumentation(fc):
     return _hot_installed
 
 
+def instrument_sly():
+    """Called inside the forked child of a 'deep' run: every bytecode instruction of the vendored sly package becomes a
+    pre-emption point too (about 8x more points per compile, so only a fraction of the runs, with small texts, does this)."""
+    import importlib
+
+    mon = sys.monitoring
+    pkg = os.path.join(repo_src(), "pyab_experiment", "sly") + os.sep
+    n = 0
+    for modname in ("pyab_experiment.sly.lex", "pyab_experiment.sly.yacc"):
+        mod = importlib.import_module(modname)
+        fn = getattr(mod, "__file__", "")
+        if not fn.startswith(pkg):
+            continue
+        for code in _code_objects_of(mod, fn):
+            mon.set_local_events(_HOT_TOOL, code, mon.events.INSTRUCTION)
+            n += 1
+    return n
+
+
 # ---------------------------------------------------------------------------
 # choosers
 # ---------------------------------------------------------------------------
